@@ -335,7 +335,12 @@ func runC15(c *h.Ctx) {
 					earlier = append(earlier, m.Name)
 				}
 			}()
-			for k := 1 + cs.R.Intn(3); k > 0; k-- {
+			k := 1 + cs.R.Intn(3)
+			if cs.R.Chance(20) {
+				k = 0 // a service without methods is still a service (and can be the first or last one)
+				cs.Cover("service_without_methods")
+			}
+			for ; k > 0; k-- {
 				mid++
 				name := fmt.Sprintf("Call%d", mid)
 				// method names are scoped by their service: two services may both declare e.g. Call1 (only when one
@@ -357,6 +362,7 @@ func runC15(c *h.Ctx) {
 		}
 		sc.Service = "SvcA"
 		sc.Methods = mk()
+		sc.EmptyFirstService = true
 		for k := 1; k < nsvc; k++ {
 			sc.MoreServices = append(sc.MoreServices, gen.PService{Name: fmt.Sprintf("Svc%c", 'A'+k), Methods: mk()})
 		}
